@@ -1013,6 +1013,7 @@ func scenarios(w *world) []scenario {
 		{name: "addr-wrong-ip", path: func(u string) string { return baseDir + "/FS_127.0.0.2_19618_" + u }, peer: p4},
 		{name: "addr-remote-wrong-ip", path: func(u string) string { return baseDir + "/FS_REMOTE_127.0.0.2_19618_" + u }, remote: true, peer: p4},
 		{name: "addr-remote-hostname-peer", path: func(u string) string { return baseDir + "/FS_REMOTE_127.0.0.1_19618_" + u }, remote: true, peer: peers[7]},
+		{name: "addr-names-client-own-endpoint", path: func(u string) string { return baseDir + "/FS_127.0.0.1_40000_" + u }, peer: p4},
 		{name: "addr-no-peer-address", path: func(u string) string { return baseDir + "/FS_127.0.0.1_19618_" + u }, peer: peers[1]},
 		{name: "remote-name-in-local-mode", path: func(u string) string { return baseDir + "/FS_REMOTE_h_42_" + u }},
 		{name: "local-name-in-remote-mode", path: func(u string) string { return baseDir + "/FS_" + u }, remote: true},
@@ -1332,7 +1333,7 @@ func quietStdout() func() {
 }
 
 func gen(c *core.Ctx) error {
-	c.Rule("A: validateFSAuthPath/fsAddrLeaf/verifyFSPathEndpoint and filepath.Clean/Dir/Base, net.ParseIP on a catalogue of recognised and near-miss leaves x parents x joiners x peers, exhaustive sequences of <=4 components from {'', '.', '..', tmp, FS_1}, every byte value inside a name, over-long fields and random mutations of accepted paths; compared with the Gallina model and judged by an independent restatement of the accepted shapes. B: the whole real client exchange against a raw-wire scripted server (9 ways to deliver the path x 12 ways to continue/end) for 37 path scenarios, with filesystem snapshots (token-named entries of /tmp, a sandbox tree, extra targets) before / at reply / after. C: the real server against 22 kinds of object left at its path. non-trivial = accepted path, exchange that created a directory, accepted server verification")
+	c.Rule("A: validateFSAuthPath/fsAddrLeaf/verifyFSPathEndpoint and filepath.Clean/Dir/Base, net.ParseIP on a catalogue of recognised and near-miss leaves x parents x joiners x peers, exhaustive sequences of <=4 components from {'', '.', '..', tmp, FS_1}, every byte value inside a name, over-long fields and random mutations of accepted paths; compared with the Gallina model and judged by an independent restatement of the accepted shapes. B: the whole real client exchange against a raw-wire scripted server (9 ways to deliver the path x 12 ways to continue/end) for 38 path scenarios, with filesystem snapshots (token-named entries of /tmp, a sandbox tree, extra targets) before / at reply / after. C: the real server against 22 kinds of object left at its path. non-trivial = accepted path, exchange that created a directory, accepted server verification")
 	c.Assume("kernel path resolution of os.Root (openat2/RESOLVE_BENEATH) and the absence of concurrent symlink swaps under /tmp are assumed, not checked")
 	c.Assume("the harness runs as root: a directory owned by another user is produced by chown; a client that is a different unprivileged user is not exercised")
 	c.Assume("os.OpenRoot(/tmp) failing is modelled but cannot be provoked on the shared /tmp")
